@@ -36,7 +36,7 @@ pub fn parse_world(world: &World) -> Result<ParsedWorld, String> {
         let m = safe_parse(text).map_err(|e| format!("{rel}: {e}"))?;
         modules.push((
             rel.to_string(),
-            ItemPath::from_path(std::path::Path::new(rel)),
+            ItemPath::from_path(std::path::Path::new(&rel)),
             m,
         ));
     }
